@@ -160,13 +160,13 @@ class ProbeRun:
                 if loose or (exp == "accept" and rej) or (exp == "reject" and not rej):
                     todo.append(p)
         # isolation re-check of every disagreement (and of whole batches with unattributable errors)
-        if len(todo) > 1200:
-            # something systematic; isolating 1200 is enough to demonstrate.  Verdicts that could not
+        if len(todo) > 6000:
+            # something systematic; isolating 6000 is enough to demonstrate.  Verdicts that could not
             # be re-checked alone are marked unverified and must not be reported by callers.
-            for p in todo[1200:]:
+            for p in todo[6000:]:
                 out[p["id"]]["unverified"] = True
-            self.n_unverified += len(todo) - 1200
-            todo = todo[:1200]
+            self.n_unverified += len(todo) - 6000
+            todo = todo[:6000]
 
         def iso(p):
             rc, rejected, loose = compile_batch(self.preamble, [(p["id"], p["text"])], self.compiler, self.std,
